@@ -44,7 +44,7 @@ typedef struct fs_rec {
   long seq;                     /* fs_seq_hook() when the call was made */
   long nbytes;                  /* byte count for read/write-class stream calls */
   void *site;                   /* return address of the call */
-  int injected;                 /* 1 = failure injected here, 2 = crash point hit here */
+  int injected;                 /* 1 = failure injected here, 2 = crash point hit here, 3 = refused by fs_path_guard */
 } fs_rec;
 
 extern int fs_active;
@@ -53,6 +53,9 @@ extern int fs_nlog;             /* number of calls logged (may exceed FS_LOGMAX:
 extern int fs_fail_at, fs_fail_errno;
 extern int fs_fail2_at, fs_fail2_errno;          /* a second, independent failure (e.g. EXDEV on rename, then EIO inside the fallback) */
 extern int (*fs_fail_filter) (const char *fn);  /* when set: return 0 to let call `fn` through although its index is due to fail */
+extern int (*fs_path_guard) (const char *path); /* when set: a call with a path argument for which it returns non-zero is logged
+                                                   (injected = 3) but not executed; the caller sees EACCES.  Lets a check
+                                                   judge an escaping path without the escape happening on the host */
 extern int fs_crash_at, fs_crash_after;
 extern void (*fs_crash_hook) (void);
 extern long (*fs_seq_hook) (void);
